@@ -509,17 +509,73 @@ def scrapeParse (c : Cfg) : List Str → Except PyExc (List URLInfo)
       | .error e => .error e
       | .ok r => .ok (i :: r)
 
-/-- `wpull.url.urljoin` around the stdlib join `stdJoin base url` (parameter) -/
-def urljoin (stdJoin : Str → Str → Except PyExc Str) (base url : Str) : Except PyExc Str :=
-  if startsWith url [47, 47] && url.length > 2 then
+/-- `wpull.url.urljoin(base, url, allow_fragments)` around the stdlib join
+`stdJoin allow_fragments base url` (parameter).  A fragment-only reference joined without fragment
+parsing is appended to the base document (repaired code; the stdlib would replace the last path segment). -/
+def urljoin (stdJoin : Bool → Str → Str → Except PyExc Str) (af : Bool) (base url : Str) : Except PyExc Str :=
+  if !af && startsWith url [35] then .ok ((partition1 35 base).1 ++ url)
+  else if startsWith url [47, 47] && url.length > 2 then
     let scheme := (partition1 58 base).1
-    if !scheme.isEmpty then stdJoin base (scheme ++ [58] ++ url) else stdJoin base url
-  else stdJoin base url
+    if !scheme.isEmpty then stdJoin af base (scheme ++ [58] ++ url) else stdJoin af base url
+  else stdJoin af base url
 
 /-- `urljoin_safe`: `except ValueError` → log, `None` -/
-def urljoinSafe (stdJoin : Str → Str → Except PyExc Str) (base url : Str) : Except PyExc (Option Str) :=
-  match urljoin stdJoin base url with
+def urljoinSafe (stdJoin : Bool → Str → Str → Except PyExc Str) (af : Bool) (base url : Str) :
+    Except PyExc (Option Str) :=
+  match urljoin stdJoin af base url with
   | .ok r => .ok (some r)
   | .error e => if e.isa .ValueError then .ok none else .error e
+
+/-! ### base selection of `HTMLScraper._process_elements` (wpull/scraper/html.py) -/
+
+/-- Python's `x or d` for an optional string (`None` and `''` are falsy) -/
+def pyOr (x d : Option Str) : Option Str :=
+  match x with
+  | some r => if r.isEmpty then d else some r
+  | none => d
+
+/-- `doc_base_url`: the first `<base href>` whose join with the page URL is truthy
+(`if not doc_base_url and element.tag == 'base': doc_base_url = urljoin_safe(base_url, href)`) -/
+def docBase (stdJoin : Bool → Str → Str → Except PyExc Str) (page : Str) :
+    List Str → Option Str → Except PyExc (Option Str)
+  | [], cur => .ok cur
+  | href :: rest, cur =>
+    if (pyOr cur none).isSome then docBase stdJoin page rest cur
+    else
+      match urljoinSafe stdJoin true page href with
+      | .error e => .error e
+      | .ok r => docBase stdJoin page rest r
+
+/-- `element_base_url`: `doc_base_url or base_url`, replaced for an element with a (cleaned, non-empty)
+`codebase` by `urljoin_safe(base_url, codebase) or base_url` -/
+def elementBase (stdJoin : Bool → Str → Str → Except PyExc Str) (page : Str) (doc : Option Str)
+    (codebase : Option Str) : Except PyExc (Option Str) :=
+  let eb := pyOr doc (some page)
+  match codebase with
+  | none => .ok eb
+  | some cb =>
+    if cb.isEmpty then .ok eb
+    else
+      match urljoinSafe stdJoin true page cb with
+      | .error e => .error e
+      | .ok r => .ok (pyOr r (some page))
+
+/-- `urljoin_safe(element_base_url, link, allow_fragments=False)` for a base that Python would also
+let be `None`: `None.partition` raises AttributeError on the two branches of `wpull.url.urljoin` that
+look at the base, the stdlib returns the link itself for a falsy base -/
+def joinOnBase (stdJoin : Bool → Str → Str → Except PyExc Str) (b : Option Str) (link : Str) :
+    Except PyExc (Option Str) :=
+  match b with
+  | none =>
+    if startsWith link [35] || (startsWith link [47, 47] && link.length > 2) then .error .AttributeError
+    else .ok (some link)
+  | some base => urljoinSafe stdJoin false base link
+
+/-- one scraped link of one element: base selection, then the join -/
+def scrapeLink (stdJoin : Bool → Str → Str → Except PyExc Str) (page : Str) (doc : Option Str)
+    (codebase : Option Str) (link : Str) : Except PyExc (Option Str) :=
+  match elementBase stdJoin page doc codebase with
+  | .error e => .error e
+  | .ok b => joinOnBase stdJoin b link
 
 end Wpull.Url
